@@ -164,6 +164,10 @@ def write_scenario(spec: Dict[str, Any], d: Path) -> Path:
     if spec.get("mechatronics"):
         (d / "mech.yaml").write_text(yaml.safe_dump(spec["mechatronics"], sort_keys=True))
         inputs["mechatronics_file"] = "mech.yaml"
+    for fname, curve in (spec.get("powercurves") or {}).items():
+        # charge curves of the scenario's own (found next to the scenario file before the packaged ones are looked at)
+        doc = {"name": fname.rsplit(".", 1)[0], "power_type": "electric", "type": "tabular", "step_size_seconds": curve["step_size_seconds"], "power_curve": [{"energy_kwh": e, "power_kw": p} for e, p in curve["points"]]}
+        (d / fname).write_text(yaml.safe_dump(doc, sort_keys=True))
     if spec.get("chargers"):
         with open(d / "chargers.csv", "w") as f:
             f.write("charger_id,energy_type,rate,units\n")
@@ -361,6 +365,7 @@ def random_spec(seed: int, profile: Optional[Dict[str, Any]] = None) -> Dict[str
     elec = [c["id"] for c in charger_defs if c["energy_type"] == "electric"]
     gas = [c["id"] for c in charger_defs if c["energy_type"] == "gasoline"]
     mech = None
+    powercurves = None
     bev_ids, ice_ids = ["leaf_50"], ["toyota_corolla"]
     if rnd.random() < P["custom_mech"]:
         mech = copy.deepcopy(DEFAULT_MECH)
@@ -383,6 +388,14 @@ def random_spec(seed: int, profile: Optional[Dict[str, Any]] = None) -> Dict[str
         }
         bev_ids.append("bev_small")
         ice_ids.append("ice_small")
+        if rnd.random() < P.get("custom_powercurve", 0.5):
+            # a measured charge curve of the operator's own: tabulated over part of the charge range only (say 5 % - 90 %),
+            # ramp - plateau - taper, with its own integration step
+            lo, hi = rnd.choice([0.0, 0.05, 0.1]), rnd.choice([1.0, 0.95, 0.9])
+            knee = rnd.choice([0.5, 0.7, 0.8])
+            pts = [[lo, rnd.choice([0.2, 0.5, 1.0])], [round(lo + 0.1, 3), 1.0], [knee, 1.0], [round((knee + hi) / 2, 3), rnd.choice([0.5, 0.7])], [hi, rnd.choice([0.05, 0.1, 0.3])]]
+            powercurves = {"own_curve.yaml": {"step_size_seconds": rnd.choice([15, 30, 45, 60, 90]), "points": pts}}
+            mech["bev_small"]["powercurve_file"] = "own_curve.yaml"
     # --- stations, bases
     n_st = _pick(rnd, P["n_stations"])
     stations = []
@@ -571,6 +584,7 @@ def random_spec(seed: int, profile: Optional[Dict[str, Any]] = None) -> Dict[str
         "schedules": schedules or None,
         "fleets": fleets,
         "mechatronics": mech,
+        "powercurves": powercurves,
         "chargers": chargers,
         "dispatcher": disp,
         "global": {"lazy": lazy},
